@@ -72,6 +72,18 @@ def gen(rng, tier):
     return xs
 
 
+def digits_unit_oracle(reply, x, n, u1):
+    if pipeline.is_error(reply):
+        return None                      # refusing a digits argument with a unit is fine; answering with its unit is not
+    v = pipeline.single_value(reply)
+    want = Fraction(half_away(x * Fraction(10) ** n)) / Fraction(10) ** n
+    if v is None or Fraction(v[0], v[1]) != want:
+        return {"why": "round gives %s, expected %s" % (v, want)}
+    if v[2] != UNIT_NAMES[u1]:
+        return {"why": "the result carries the unit %s, the first argument has %s" % (v[2], UNIT_NAMES[u1])}
+    return None
+
+
 def run(rng, tier, model_ok):
     xs = gen(rng, tier)
     items = []
@@ -123,6 +135,15 @@ def run(rng, tier, model_ok):
                 t = dec_text(x)
                 arg = t + u if not t.startswith("(") else t
                 add("round(%s, %d)" % (arg, n), "round", x, n, u if not t.startswith("(") else "")
+    # the unit of the result is the unit of the first argument, whatever the digits argument carries
+    for _ in range(30 if tier == "quick" else 400):
+        x = rng.choice(xs)
+        n = rng.randint(-3, 4)
+        t = dec_text(x)
+        u1 = rng.choice(["", "", " m", " kg"]) if not t.startswith("(") else ""
+        u2 = rng.choice([" m", " s", " kg", " km"])
+        items.append(("round(%s%s, %d%s)" % (t, u1, n, u2), (lambda x, n, u1: (lambda reply: digits_unit_oracle(reply, x, n, u1)))(x, n, u1)))
+        meta.append(("round", n, u1))
     def must_fail(reply):
         return None if pipeline.is_error(reply) else {"why": "a wrong number of arguments was accepted"}
     arity_qs = ["ceil( )"]
